@@ -59,9 +59,28 @@ func (c Const) Validate(v bytes.Bytes) {
 		return
 	}
 
-	if v.String() != c.nodeValue.String() {
+	if v.String() != c.nodeValue.String() && !sameLiteralValue(v, c.nodeValue) {
 		panic(errors.Format(errors.ErrInvalidConst, c.nodeValue.String()))
 	}
+}
+
+// sameLiteralValue reports whether two differently spelled literals denote the
+// same value: strings are compared decoded ("a" and "\u0061"), numbers by their
+// exact decimal value (1.5, 1.50 and 15e-1).
+func sameLiteralValue(a, b bytes.Bytes) bool {
+	ga, gb := json.Guess(a), json.Guess(b)
+	if ga.IsString() || gb.IsString() {
+		return ga.IsString() && gb.IsString() && a.Unquote().String() == b.Unquote().String()
+	}
+	na, err := json.NewNumber(a)
+	if err != nil {
+		return false
+	}
+	nb, err := json.NewNumber(b)
+	if err != nil {
+		return false
+	}
+	return na.Equal(nb)
 }
 
 func (c Const) ASTNode() jschema.RuleASTNode {
